@@ -11,6 +11,7 @@ import (
 	"github.com/trustbloc/sidetree-go/pkg/hashing"
 	"github.com/trustbloc/sidetree-go/pkg/jws"
 	"github.com/trustbloc/sidetree-go/pkg/jwsutil"
+	"github.com/trustbloc/sidetree-go/pkg/patch"
 	"github.com/trustbloc/sidetree-go/pkg/versions/1_0/doccomposer"
 )
 
@@ -70,6 +71,25 @@ func TestC10_Regress(t *testing.T) {
 			t.Errorf("C10 regress %q: got %s (%v) want %s", c.name, got, gerr, want)
 		}
 		st.Case(true, "regress:"+c.name, "regress")
+	}
+}
+
+// F18: 'test' of equal numbers in different spellings (the patch text matters here, so it is given literally)
+func TestC10_RegressNumberSpelling(t *testing.T) {
+	st := statsFor("C10")
+	for _, text := range []string{
+		`{"action":"ietf-json-patch","patches":[{"op":"add","path":"/num","value":0},{"op":"test","path":"/num","value":-0}]}`,
+		`{"action":"ietf-json-patch","patches":[{"op":"add","path":"/num","value":-0.0},{"op":"test","path":"/num","value":0e5}]}`,
+		`{"action":"ietf-json-patch","patches":[{"op":"add","path":"/num","value":1.0},{"op":"test","path":"/num","value":1e0},{"op":"test","path":"/num","value":10E-1}]}`,
+	} {
+		p, err := patch.FromBytes([]byte(text))
+		if err != nil {
+			t.Fatal(err)
+		}
+		if _, err := doccomposer.New().ApplyPatches(libDoc(map[string]interface{}{"x": "y"}), lpList(p)); err != nil {
+			t.Errorf("C10 regress F18: %s: %v", text, err)
+		}
+		st.Case(true, "regress:F18:"+text, "regress")
 	}
 }
 
